@@ -295,6 +295,12 @@ Proof.
   change (tr_entry (atrack a (from_samples (asamples w) aoffs 1 (w_alast_delta w)) md)) with (aentry_tree a).
   rewrite (audio_clause a Hr Hc).
   set (at_ := from_samples (asamples w) aoffs 1 (w_alast_delta w)).
+  assert (C2a : listN_eqb (tr_durations (atrack a at_ md)) (durations_spec (map af_pts (h_a h))) = true).
+  { pose proof (audio_timing b ops rs m a aoffs md F HsumA) as AT. cbv zeta in AT.
+    unfold check_track_timing in AT.
+    apply andb_true_iff in AT. destruct AT as [AT _].
+    apply andb_true_iff in AT. destruct AT as [AT _]. exact AT. }
+  rewrite C2a.
   assert (C4a : match strict_mdhd (tr_mdhd (atrack a at_ md)) with
                 | Some m1 => md_duration m1 =? sumN (durations_spec (map af_pts (h_a h))) | None => true end = true);
     [|rewrite C4a; reflexivity].
